@@ -366,7 +366,12 @@ def cachePolicy (f : List String) (out : String) : Bool :=
 def step (st : DrvState) (f : List String) : DrvState × String :=
   match stepEnf st f with
   | some r =>
-    if r.1.cache.isSome && cachePolicy f r.2 then ({ r.1 with cache := some [] }, r.2) else r
+    -- a management call clears the cache iff the store changed — also when the call then fails (link update)
+    let mgmtOp := match f.head? with
+      | some op => op ∈ ["e.add", "e.addm", "e.rm", "e.rmm", "e.rmf", "e.deluser", "e.delrole", "e.delperm"]
+      | none => false
+    let storeChanged := mgmtOp && decide (r.1.enf.store ≠ st.enf.store)
+    if r.1.cache.isSome && (cachePolicy f r.2 || storeChanged) then ({ r.1 with cache := some [] }, r.2) else r
   | none =>
   match f with
   | ["eff.run", x, cap, seq] =>
